@@ -483,6 +483,33 @@ def r13_no_materialise(ctx, rule='R13', min_level=1):
                           'for %s in %s' % (u(loop.target), u(loop.iter)),
                           'rows collected in %s during the loop are only emitted after the upstream stream is exhausted'
                           % ', '.join(sorted(acc)))
+                # rows held back inside the loop: a container fed from the loop variable is emitted from inside the same loop (a
+                # flush).  How far upstream is read before a held row goes out is then the distance to the flush: it must be a
+                # size test on the container (a batch), not an event in the data.
+                if acc and has_yield and lv >= 1:
+                    flushed_in = set()
+                    for y in ast.walk(loop):
+                        if isinstance(y, ast.YieldFrom) and (names_in(y.value) & acc):
+                            flushed_in |= names_in(y.value) & acc
+                        if isinstance(y, ast.For) and y is not loop and (names_in(y.iter) & acc) and \
+                                any(isinstance(z, (ast.Yield, ast.YieldFrom)) for z in ast.walk(y)):
+                            flushed_in |= names_in(y.iter) & acc
+                        if isinstance(y, ast.Yield) and y.value is not None and (names_in(y.value) & acc) and \
+                                not (names_in(y.value) & tnames):
+                            flushed_in |= names_in(y.value) & acc
+                    in_loop = {id(x_) for x_ in ast.walk(loop)}
+                    outside = {pseudo(t_) for x_ in own_nodes(f.node) if isinstance(x_, ast.Assign) and id(x_) not in in_loop
+                               for t_ in x_.targets if pseudo(t_)}
+                    flushed_in &= outside          # (a container made anew for every row is the row being built, not a buffer)
+                    for a_ in sorted(flushed_in):
+                        sized = any(isinstance(c_, ast.Compare) and any(isinstance(l_, ast.Call) and isinstance(l_.func, ast.Name)
+                                                                        and l_.func.id == 'len' and l_.args and pseudo(l_.args[0]) == a_
+                                                                        for l_ in [c_.left] + list(c_.comparators))
+                                    for c_ in ast.walk(loop))
+                        run.check(sized, rule, where(ctx.repo, loop), f.qualname, 'rows held in %s are flushed on a size test' % a_,
+                                  'rows are held back in %s and passed on only when something in the data says so (no test on the size of '
+                                  'the container): the number of rows read from upstream before a held row is delivered grows with the data'
+                                  % a_)
     run.floor(rule, n_funcs, 30, 'functions handling streams')
     run.analysed['stream_functions'] = n_funcs
     run.analysed['stream_sites'] = n_sites
